@@ -616,10 +616,14 @@ impl<R: Read, A: ArchTokens> Iterator for Lexer<R, A> {
                         '\n'
                     }
                     Some(Err(e)) => {
-                        return Some(Err(LexerError::ReadError {
-                            loc: self.loc,
-                            source: e,
-                        }));
+                        // the fault is at the character that could not be read
+                        let mut loc = self.loc;
+                        if self.line_break {
+                            loc.line += 1;
+                            loc.column = 0;
+                        }
+                        loc.column += 1;
+                        return Some(Err(LexerError::ReadError { loc, source: e }));
                     }
                     Some(Ok(c)) => {
                         // a line break belongs to the line it ends
